@@ -29,10 +29,15 @@ PROPS = {}
 
 PROPS["C10"] = dict(
     units=[
+        dict(harness="fs_safety", mode="ops", kind="enum", quick=dict(shards=8, opts=dict(maxcap=2, maxtext=2)),
+             thorough=dict(shards=16, opts=dict(maxcap=3, maxtext=2))),
         dict(harness="fs_safety", mode="ops", quick=dict(cases=20000, size=100, shards=8),
              thorough=dict(cases=150000, size=100, shards=16)),
     ],
-    rule="FixedString<L> for L in {1,2,3,4,5,7,8,16,31,255,256,1000,65535,65536} (small and 255/256 weighted up), placed either in an "
+    rule="exhaustive part: capacities 1..2 (thorough: 1..3) x every content over {a,b} x every single operation kind x every variant x "
+         "every source object x source texts over {a,b} of length 0..2 x the argument grid {0..max(length,source length,L)+2, npos-1, "
+         "npos} for every position/count argument; generated part: "
+         "FixedString<L> for L in {1,2,3,4,5,7,8,16,31,255,256,1000,65535,65536} (small and 255/256 weighted up), placed either in an "
          "exact-size heap block (ASan red zones on both sides) or between two 64-byte canary arrays; a second FixedString<L> as swap "
          "partner/same-capacity source; 1..40 operations (1..6 for L>=65535) out of 119 operation kinds that cover all ~150 public overloads (constructors, "
          "assign/=, 10 insert, 3 erase, push/pop_back, 8 append, 4 +=, sprintf, 13 replace, swap, clear, substr, copy, at/[]/front/back/"
